@@ -477,6 +477,18 @@ def directed():
       ("seq", {"t": "QLSTM", "units": 2, "return_sequences": False,
                "use_bias": True, "kq": qb, "rq": qb6, "bq": None, "sq": None,
                "as_cell": True}),
+      # quantized activations of recurrent layers (string and object forms)
+      ("seq", {"t": "QLSTM", "units": 2, "return_sequences": False,
+               "use_bias": True, "kq": qb, "rq": qb, "bq": qb, "sq": None,
+               "act": {"str": "quantized_tanh(4)"},
+               "ract": {"cls": "quantized_sigmoid", "kw": {"bits": 6}}}),
+      ("seq", {"t": "QGRU", "units": 2, "return_sequences": True,
+               "use_bias": True, "kq": qb, "rq": qb, "bq": qb, "sq": None,
+               "act": {"cls": "quantized_tanh", "kw": {"bits": 6}},
+               "ract": {"str": "quantized_sigmoid(4)"}, "bidir": True}),
+      ("seq", {"t": "QSimpleRNN", "units": 2, "return_sequences": False,
+               "use_bias": True, "kq": qb, "rq": qb, "bq": qb, "sq": None,
+               "act": {"str": "quantized_relu(4,1)"}, "as_cell": True}),
       # partially / not quantized recurrent layers (each role None in turn)
       ("seq", {"t": "QGRU", "units": 2, "return_sequences": False,
                "use_bias": True, "kq": None, "rq": None, "bq": None,
